@@ -9,18 +9,18 @@ import WowSrp.Gen.Constants
 namespace WowSrp
 
 def expected_structuralWrath : List String := ["Default for ProofSeed @src/wrath_header/mod.rs",
-  "ClientCrypto @src/wrath_header/mod.rs: Clone Ord PartialOrd Eq PartialEq Hash",
-  "ClientDecrypterHalf @src/wrath_header/decrypt.rs: Clone Ord PartialOrd Eq PartialEq Hash",
-  "ClientEncrypterHalf @src/wrath_header/encrypt.rs: Clone Ord PartialOrd Eq PartialEq Hash",
-  "InnerCrypto @src/wrath_header/inner_crypto/mod.rs: Clone Ord PartialOrd Eq PartialEq Hash",
-  "ProofSeed @src/wrath_header/mod.rs: Clone Copy Ord PartialOrd Eq PartialEq Hash",
-  "Rc4 @src/rc4.rs: Clone Ord PartialOrd Eq PartialEq Hash",
-  "ServerCrypto @src/wrath_header/mod.rs: Clone Ord PartialOrd Eq PartialEq Hash",
-  "ServerDecrypterHalf @src/wrath_header/decrypt.rs: Clone Ord PartialOrd Eq PartialEq Hash",
-  "ServerEncrypterHalf @src/wrath_header/encrypt.rs: Clone Ord PartialOrd Eq PartialEq Hash",
-  "ServerHeader @src/wrath_header/mod.rs: Clone Copy Ord PartialOrd Eq PartialEq Hash",
+  "ClientCrypto @src/wrath_header/mod.rs: Clone Ord PartialOrd Eq PartialEq Hash | decrypt ClientDecrypterHalf encrypt ClientEncrypterHalf",
+  "ClientDecrypterHalf @src/wrath_header/decrypt.rs: Clone Ord PartialOrd Eq PartialEq Hash | decrypt InnerCrypto header",
+  "ClientEncrypterHalf @src/wrath_header/encrypt.rs: Clone Ord PartialOrd Eq PartialEq Hash | encrypt InnerCrypto",
+  "InnerCrypto @src/wrath_header/inner_crypto/mod.rs: Clone Ord PartialOrd Eq PartialEq Hash | inner Rc4",
+  "ProofSeed @src/wrath_header/mod.rs: Clone Copy Ord PartialOrd Eq PartialEq Hash | seed u32",
+  "Rc4 @src/rc4.rs: Clone Ord PartialOrd Eq PartialEq Hash | state i u8 j u8",
+  "ServerCrypto @src/wrath_header/mod.rs: Clone Ord PartialOrd Eq PartialEq Hash | decrypt ServerDecrypterHalf encrypt ServerEncrypterHalf",
+  "ServerDecrypterHalf @src/wrath_header/decrypt.rs: Clone Ord PartialOrd Eq PartialEq Hash | decrypt InnerCrypto",
+  "ServerEncrypterHalf @src/wrath_header/encrypt.rs: Clone Ord PartialOrd Eq PartialEq Hash | encrypt InnerCrypto server_header",
+  "ServerHeader @src/wrath_header/mod.rs: Clone Copy Ord PartialOrd Eq PartialEq Hash | size u32 opcode u16",
   "WrathServerAttempt @src/wrath_header/decrypt.rs: "]
 
-theorem structuralWrath_ok : Gen.structuralWrath = expected_structuralWrath := by decide
+theorem structuralWrath_ok : Gen.structuralWrath = expected_structuralWrath := by decide +kernel
 
 end WowSrp
